@@ -99,7 +99,7 @@ def check(run):
         for nd in ((0, 2) if not thorough else (0, 1, 3)):
             specs.append(build_enum(r, "E%d" % k, n, nd, generics=None))
             k += 1
-    for g, n in (("T", 3), ("N", 2), ("TU", 4)):
+    for g, n in (("T", 3), ("N", 2), ("TU", 4), ("NT", 3), ("Tnd", 2), ("Tw", 3)):
         specs.append(build_enum(r, "E%d" % k, n, 1, generics=g))
         k += 1
     if thorough:
